@@ -16,7 +16,7 @@ RULE = ("Hypothesis-generated loader inputs: manual dicts; empirical sequences w
 ASSUMPTIONS = ["the upper degree bound may be read as exclusive or inclusive (the statement only says 'inside the given "
                "bounds'; the pinned direct and sampling modes disagree), consistently within one loader result",
                "function / marginal results are compared after normalising both sides"]
-BUDGET = {"quick": (16, 200), "thorough": (16, 3000)}
+BUDGET = {"quick": (16, 200), "thorough": (16, 8000)}
 TOL = 1e-9
 
 
